@@ -94,8 +94,15 @@ package config
 
 // The validator returns on the first failing section; over the product of all sections it accepts exactly the
 // documented configurations (logging: documented values accepted, unknown ones rejected).
+// C18 "never starts half-configured": the listeners that are switched on (proxy, metrics, Admin API) must not compete
+// for one port - the loser only logs its bind error and its feature is missing from the running proxy
+//@ pred docListeners(c *Config) := (c.Metrics.Enabled ==> c.Metrics.Port != c.Server.Port) && (c.AdminAPI.Enabled ==> c.AdminAPI.Port != c.Server.Port)
+//@      && (c.Metrics.Enabled && c.AdminAPI.Enabled ==> c.Metrics.Port != c.AdminAPI.Port)
+//@ func (*Config).validateListeners
+//@   props C18
+//@   ensures exact: result == nil <==> docListeners(c)
 //@ pred docAllButLogging(c *Config) := docBackends(c) && docServer(c) && docTimeouts(c) && docStrategy(c.LoadBalancer.Strategy) && docPool(c)
-//@      && docHealth(c) && docRateLimit(c) && docBreaker(c) && docMetrics(c) && docAdmin(c)
+//@      && docHealth(c) && docRateLimit(c) && docBreaker(c) && docMetrics(c) && docAdmin(c) && docListeners(c)
 //@ func (*Config).Validate
 //@   props C18
 //@   ensures documented_configurations_load: docAllButLogging(c) && docLevel(c.Logging.Level) && docFormat(c.Logging.Format) ==> result == nil
@@ -109,7 +116,8 @@ package config
 // before it validates, and a file is accepted exactly when the result is a documented configuration.
 //@ pred fileBreaker(c *Config) := c.CircuitBreaker.Enabled ==> c.CircuitBreaker.FailureThreshold >= 0 && c.CircuitBreaker.SuccessThreshold >= 0
 //@      && c.CircuitBreaker.TimeoutSeconds >= 0 && c.CircuitBreaker.IntervalSeconds >= 0 && c.CircuitBreaker.MaxRequests >= 0
-//@ pred fileMetrics(c *Config) := c.Metrics.Enabled ==> c.Metrics.Port == 0 || portOK(c.Metrics.Port)
+//@ pred fileMetrics(c *Config) := c.Metrics.Enabled ==> (c.Metrics.Port == 0 || portOK(c.Metrics.Port))
+//@      && (c.Metrics.Path == "" || (servable(c.Metrics.Path) && c.Metrics.Path != "/health"))
 //@ func (*Config).applyDefaults
 //@   props C18
 //@   requires c != nil
